@@ -9,6 +9,7 @@ import (
 	"fmt"
 	"io"
 	"math/big"
+	"reflect"
 	"sort"
 	"strings"
 	"time"
@@ -222,6 +223,19 @@ func newSeqRunner[V any](r *rng, genv func(r *rng) V, isInt bool) *seqRunner[V] 
 	var zero V
 	return &seqRunner[V]{r: r, zero: zero, genv: genv, isInt: isInt, notation: cdc.Notation().Make(),
 		opHist: map[string]int{}, outHist: map[string]int{}, sizeHist: map[int]int{}, maxPool: 9}
+}
+
+// hashableSeq: every value of sequence object i can be a Go map key.  Under K = any a value of an
+// unhashable dynamic type (a Go slice or map) makes every Go map operation panic ("hash of unhashable
+// type"), for the library's Map and Catalog exactly as for a Go map; such values are not keys of the
+// properties' key universes and the model does not represent hashability, so they are not used as keys.
+func (s *seqRunner[V]) hashableSeq(i int) bool {
+	for _, v := range s.seqOf(i).AsArray() {
+		if x := any(v); x != nil && !reflect.TypeOf(x).Comparable() {
+			return false
+		}
+	}
+	return true
 }
 
 func (s *seqRunner[V]) add(kind okind, v any, coll int) {
@@ -1432,7 +1446,7 @@ func (a *assocRunner[V]) doOp(name string) bool {
 		}
 		x := pick(kCat)
 		ks := pick(kArr, kLst, kSet, kStk, kQue)
-		if x < 0 || ks < 0 {
+		if x < 0 || ks < 0 || !s.hashableSeq(ks) {
 			return false
 		}
 		s.record(a, name, fmt.Sprintf("Extract %d %d", x, ks), fmt.Sprintf("Catalog.Extract(#%d,#%d)", x, ks), func() string {
@@ -1510,7 +1524,7 @@ func (a *assocRunner[V]) doOp(name string) bool {
 		}
 		i := pick(kCat, kMap)
 		ks := pick(kArr, kLst, kSet, kStk, kQue)
-		if i < 0 || ks < 0 {
+		if i < 0 || ks < 0 || !s.hashableSeq(ks) {
 			return false
 		}
 		s.record(a, name, fmt.Sprintf("%s %d %d", name, i, ks), fmt.Sprintf("#%d.%s(#%d)", i, name, ks), func() string {
